@@ -148,7 +148,7 @@ func GenInv(t *rapid.T, cfg GenCfg) Inv {
 	}
 	np := rapid.IntRange(0, 3).Draw(t, "nprf")
 	for i := 0; i < np; i++ {
-		iv.Prf = append(iv.Prf, []byte{byte(rapid.IntRange(0, 9).Draw(t, "prf"))})
+		iv.Prf = append(iv.Prf, []byte{byte(rapid.IntRange(0, 9).Draw(t, "prf")), byte(rapid.IntRange(0, 9).Draw(t, "prfshape"))})
 	}
 	if rapid.Bool().Draw(t, "hasmeta") {
 		iv.Meta = genKVs(t, cfg, "meta", 3)
@@ -168,7 +168,7 @@ func GenInv(t *rapid.T, cfg GenCfg) Inv {
 		iv.Iat = genTime(t, cfg, "iat", false)
 	}
 	if rapid.Bool().Draw(t, "hascause") {
-		iv.Cause = []byte{byte(rapid.IntRange(0, 9).Draw(t, "cause"))}
+		iv.Cause = []byte{byte(rapid.IntRange(0, 9).Draw(t, "cause")), byte(rapid.IntRange(0, 9).Draw(t, "causeshape"))}
 	}
 	return iv
 }
